@@ -40,6 +40,16 @@ impl TypeRegistry {
     }
 
     pub(crate) fn unresolved(&self) -> Vec<ItemPath> {
+        #[cfg(pyxis_verif)]
+        if let Some(scheduled) = verif_hook::scheduled(
+            self.types
+                .iter()
+                .filter(|(_, t)| !t.is_predefined() && !t.is_resolved())
+                .map(|(k, _)| k.clone())
+                .collect(),
+        ) {
+            return scheduled;
+        }
         self.types
             .iter()
             .filter(|(_, t)| !t.is_predefined() && !t.is_resolved())
@@ -96,5 +106,48 @@ impl TypeRegistry {
 
     pub(crate) fn padding_type(&self, bytes: usize) -> Type {
         Type::Array(Box::new(self.resolve_string(&[], "u8").unwrap()), bytes)
+    }
+}
+
+/// Verification hook (only compiled with `--cfg pyxis_verif`): lets a harness choose the order in
+/// which `TypeRegistry::unresolved` reports the unresolved items, instead of hash order.
+///
+/// The installed schedule is a list of permutation indices keyed by the *number* of unresolved
+/// items: with `n` unresolved items, the sorted list of their paths is permuted by index
+/// `schedule[n]` (0 when absent) in the mixed-radix numbering `i = k % n; k /= n; ...`.
+/// The order is therefore a function of the set of unresolved items only.
+#[cfg(pyxis_verif)]
+pub mod verif_hook {
+    use super::ItemPath;
+    use std::cell::RefCell;
+
+    thread_local! {
+        static SCHEDULE: RefCell<Option<Vec<u64>>> = const { RefCell::new(None) };
+    }
+
+    /// Installs (or, with `None`, removes) the schedule for the current thread.
+    pub fn set_schedule(schedule: Option<Vec<u64>>) {
+        SCHEDULE.with(|s| *s.borrow_mut() = schedule);
+    }
+
+    pub fn nth_permutation<T>(mut k: u64, mut items: Vec<T>) -> Vec<T> {
+        let mut out = Vec::with_capacity(items.len());
+        while !items.is_empty() {
+            let n = items.len() as u64;
+            let i = (k % n) as usize;
+            k /= n;
+            out.push(items.remove(i));
+        }
+        out
+    }
+
+    pub(super) fn scheduled(mut paths: Vec<ItemPath>) -> Option<Vec<ItemPath>> {
+        SCHEDULE.with(|s| {
+            let schedule = s.borrow();
+            let schedule = schedule.as_ref()?;
+            paths.sort();
+            let k = schedule.get(paths.len()).copied().unwrap_or(0);
+            Some(nth_permutation(k, paths))
+        })
     }
 }
